@@ -217,7 +217,42 @@ pub fn feature_material(seed: u64) -> serde_json::Value {
         let verdicts_pub: Vec<serde_json::Value> = offers_pub.iter().map(|b| json!({"hex": hex::encode(b), "ok": key_from_bytes::<B::V, Public>(b).is_ok()})).collect();
         let verdicts_sec: Vec<serde_json::Value> = offers_sec.iter().map(|b| json!({"hex": hex::encode(b), "ok": key_from_bytes::<B::V, Secret>(b).is_ok()})).collect();
         let verdicts_loc: Vec<serde_json::Value> = offers_loc.iter().map(|b| json!({"hex": hex::encode(b), "ok": key_from_bytes::<B::V, Local>(b).is_ok()})).collect();
+        // token strings offered to the verifier / decrypter with the FULL build's verdict: the honest tokens, corrupted ones, and
+        // second spellings of the signature (ECDSA (r, n - s); Ed25519 S + L)
+        let nv = paseto_core::validation::NoValidation::<Raw>::dangerous_no_validation;
+        let mut tok_pub: Vec<String> = vec![tp.clone(), flip(&tp)];
+        {
+            let hdr = crate::drive_tokens::header::<B, Public>();
+            if let Some((mut body, foot)) = crate::drive_tokens::split_token(&tp, hdr.len()) {
+                let n = body.len();
+                if B::VER == 3 && n >= 96 {
+                    // s := n - s
+                    let mut borrow = 0i16;
+                    for i in (0..48).rev() {
+                        let v = keys::P384_N[i] as i16 - body[n - 48 + i] as i16 - borrow;
+                        body[n - 48 + i] = v.rem_euclid(256) as u8;
+                        borrow = if v < 0 { 1 } else { 0 };
+                    }
+                    tok_pub.push(crate::drive_tokens::token_string::<B, Public>(&body, &foot));
+                }
+                if (B::VER == 2 || B::VER == 4) && n >= 64 {
+                    const L: [u8; 32] = [0xed, 0xd3, 0xf5, 0x5c, 0x1a, 0x63, 0x12, 0x58, 0xd6, 0x9c, 0xf7, 0xa2, 0xde, 0xf9, 0xde, 0x14,
+                                         0, 0, 0, 0, 0, 0, 0, 0, 0, 0, 0, 0, 0, 0, 0, 0x10];
+                    let mut carry = 0u16;
+                    for i in 0..32 {
+                        let v = body[n - 32 + i] as u16 + L[i] as u16 + carry;
+                        body[n - 32 + i] = v as u8;
+                        carry = v >> 8;
+                    }
+                    tok_pub.push(crate::drive_tokens::token_string::<B, Public>(&body, &foot));
+                }
+            }
+        }
+        let tok_loc: Vec<String> = vec![tl.clone(), flip(&tl), tn.clone()];
+        let verdicts_tp: Vec<serde_json::Value> = tok_pub.iter().map(|t| json!({"text": t, "ok": SealedToken::<B::V, Public, Raw, Vec<u8>>::from_str(t).and_then(|x| x.unseal(&pk, &aad, &nv())).is_ok()})).collect();
+        let verdicts_tl: Vec<serde_json::Value> = tok_loc.iter().map(|t| json!({"text": t, "ok": SealedToken::<B::V, Local, Raw, Vec<u8>>::from_str(t).and_then(|x| x.unseal(&lk, &aad, &nv())).is_ok()})).collect();
         json!({
+            "offers_tokens_public": verdicts_tp, "offers_tokens_local": verdicts_tl,
             "offers_public": verdicts_pub, "offers_secret": verdicts_sec, "offers_local": verdicts_loc,
             "aad": hex::encode(&aad), "claims": hex::encode(&claims), "footer": hex::encode(&footer), "nonce": hex::encode(&nonce),
             "local_key": hex::encode(key_bytes(&lk)), "secret_key": hex::encode(&pair.secret), "public_key": hex::encode(&pair.public),
